@@ -30,6 +30,9 @@ TRead == /\ IsEvent("read")
             /\ IF e.res = "ok"
                THEN /\ results' = Append(results, [res |-> "ok", kind |-> e.kind, sec |-> e.sec, payload |-> Payload(e), consumed |-> e.consumed])
                     /\ phase' = "idle"
+               ELSE IF layer = "x224" /\ e.ek = "InvalidConst"      \* not an X.224 data TPDU: refused, the framing stays in step
+               THEN /\ results' = Append(results, [res |-> "err", why |-> "x224", consumed |-> e.consumed])
+                    /\ phase' = "idle"
                ELSE /\ results' = Append(results, [res |-> "err", why |-> (IF e.ek = "InvalidSize" THEN "short" ELSE "eof"), consumed |-> e.consumed])
                     /\ phase' = "dead"
             /\ pos' = e.consumed
@@ -37,6 +40,21 @@ TRead == /\ IsEvent("read")
 
 TNext == TReset \/ TRead
 TSpec == TInit /\ [][TNext]_tvars
+
+\* ExactFrames, aware of the layer: at the X.224 layer a slow-path frame whose payload does not start with the data
+\* header 02 F0 80 is refused after having been consumed whole, and the frames that follow are still returned exactly
+ExactFramesL ==
+  LET ref == RefFrames(buf) IN
+  /\ Len(results) <= Len(ref)
+  /\ \A i \in 1..Len(results) :
+        LET r == ref[i]
+            notData == layer = "x224" /\ r.res = "ok" /\ r.kind = "raw" /\ ~X224Strip(r.payload).ok IN
+        IF notData                \* refused, or (the property does not say which header bytes are checked) accepted with the
+                                  \* three header bytes stripped - in both cases the frame is consumed whole
+        THEN \/ results[i] = [res |-> "err", why |-> "x224", consumed |-> r.consumed]
+             \/ /\ results[i].res = "ok" /\ results[i].kind = "raw" /\ results[i].consumed = r.consumed
+                /\ Rest(results[i].payload, 4) = Rest(r.payload, 4)
+        ELSE StripWhy(results[i]) = StripWhy(r)
 
 \* a rejected frame must not have consumed anything beyond its header
 RejectConsumes == \A i \in 1..Len(results) :
